@@ -54,6 +54,8 @@ type Subscription struct {
 	accessCallbacks []func(*rescache.Access)
 	flags           uint8
 	throttle        *rescache.Throttle
+	// reaccessThrottle is the throttle of a deferred reaccess (flagReaccess)
+	reaccessThrottle *rescache.Throttle
 
 	// Protected by conn
 	direct       int // Number of direct subscriptions
@@ -315,7 +317,9 @@ func (s *Subscription) unqueueEvents(reason uint8) {
 
 	// Start with reaccess calls
 	if s.flags&flagReaccess != 0 {
-		s.handleReaccess(nil)
+		t := s.reaccessThrottle
+		s.reaccessThrottle = nil
+		s.handleReaccess(t)
 		if s.queueFlag != 0 {
 			return
 		}
@@ -879,6 +883,9 @@ func (s *Subscription) reaccess(t *rescache.Throttle) {
 
 	if s.queueFlag != 0 {
 		s.flags |= flagReaccess
+		if t != nil {
+			s.reaccessThrottle = t
+		}
 		// The access check is deferred, but the verdict at hand must not be
 		// used meanwhile, nor the answer to a request already in flight.
 		s.access = nil
@@ -975,9 +982,13 @@ func (s *Subscription) retryStaleAccess(cbs []func(*rescache.Access)) bool {
 		return false
 	}
 	s.flags &= ^flagAccessStale
+	// The new request serves as the deferred access check as well.
+	s.flags &= ^flagReaccess
+	t := s.reaccessThrottle
+	s.reaccessThrottle = nil
 	s.accessCallbacks = nil
 	for _, cb := range cbs {
-		s.loadAccess(cb, nil)
+		s.loadAccess(cb, t)
 	}
 	return true
 }
